@@ -673,7 +673,7 @@ theorem facts_c17 :
     Facts.c17AcmeUpdateConds = ["i.config == nil || i.options.AcmeQueue == nil", "le.IsLeader()", "!hasAccount", "storages.Updated()"] ∧
     Facts.c17AcmeUpdateCalls = [".Storages", "i.config.AcmeData", "le.IsLeader", "i.acmeEnsureConfig", "i.config.AcmeData", "storages.BuildAcmeStoragesAdd", "i.acmeAddStorage", "storages.BuildAcmeStoragesDel", "i.acmeRemoveStorage", "storages.Updated", "i.logger.InfoV", "le.LeaderName"] ∧
     Facts.c17AcmeTLSConds = ["tls.SecretName != \"\"", "tls.SecretName != \"\" && len(tls.Hosts) > 0", "tls.SecretName != \"\""] ∧
-    Facts.c17PreTrackContexts = ["convtypes.ResourceHABackend", "ctx", "ctx", "ctx", "convtypes.ResourceHABackend"] :=
+    Facts.c17PreTrackContexts = ["convtypes.ResourceHABackend", "ctx", "ctx", "ctx", "ctx", "convtypes.ResourceHABackend"] :=
   ⟨rfl, rfl, rfl, rfl, rfl, rfl, rfl, rfl, rfl, rfl, rfl, rfl, rfl, rfl⟩
 
 end HapVerif.C17
